@@ -504,7 +504,8 @@ pub fn run(ctx: &Ctx, rep: &mut Report) {
     for i in 0..nrepl {
         let mut rng = root.fork(0x2000_0000 + i as u64);
         let c = crate::meta::gen_repl_case(&mut rng);
-        if miri && c.pats.iter().map(|p| p.len()).sum::<usize>() > 24 {
+        // (the interpreter needs minutes for one of the generator's long haystacks)
+        if miri && (c.pats.iter().map(|p| p.len()).sum::<usize>() > 24 || c.hay.len() > 80) {
             continue;
         }
         let s = match guard(|| c.cfg.build(&c.pats)) {
